@@ -12,6 +12,7 @@ mod c18;
 mod client;
 mod editor;
 mod repo;
+mod urlfs;
 mod util;
 
 use serde_json::{json, Value};
@@ -54,6 +55,7 @@ fn run_case(v: &Value) -> Value {
         16 => c16::run(op, args),
         20 => POOL.with(|pool| c20::run(pool, op, args)),
         18 => RT.with(|rt| c18::run(rt, op, args)),
+        21 => RT.with(|rt| urlfs::run(rt, op, args)),
         _ => json!([999]),
     }
 }
